@@ -1,7 +1,79 @@
 import M3d.Basic
-/-! Line-protocol handler for C16. Core-only. (stub) -/
+import M3d.Model.CodecIO
+/-! Line-protocol handler for C16 (decoders on arbitrary bytes: outcome class and data). Core-only. -/
 namespace M3d.Drv.C16
+open M3d M3d.Codec M3d.Codec.IO
 
-def handleAll (ws : List String) : Option String := none
+def run {α} (p : P α) (ws : List String) : Option α :=
+  match p ws with
+  | some (a, []) => some a
+  | _ => none
+
+def pFile : P (Bytes × Tables) := do
+  let b ← pBytes
+  let t ← pTables
+  pure (b, t)
+
+def showRecs64 (ts : List (List UInt64)) : String :=
+  "ok " ++ toString ts.length ++ String.join (ts.map fun t => String.join (t.map fun x => " " ++ hex64 x))
+
+def showRecs32 (ts : List (List UInt32)) : String :=
+  "ok " ++ toString ts.length ++ String.join (ts.map fun t => String.join (t.map fun x => " " ++ hex32 x))
+
+def showPolys (polys : List (List V3)) : String :=
+  "ok " ++ toString polys.length ++ String.join (polys.map fun p =>
+    " " ++ toString p.length ++ String.join (p.map fun v => " " ++ showC3 v))
+
+def showRGB (c : RGB) : String := s!"{c.1},{c.2.1},{c.2.2}"
+def widen3 (v : UInt32 × UInt32 × UInt32) : C3 := (widen v.1, widen v.2.1, widen v.2.2)
+
+def isNaN64 (x : UInt64) : Bool := (x >>> 52) &&& 0x7ff = 0x7ff && x &&& 0xfffffffffffff ≠ 0
+
+/-- `CoordMap.Load`: a key with a NaN coordinate is never found (Go `==`) -/
+def lookupColor (verts : List C3) (colors : List RGB) (p : C3) : String :=
+  if isNaN64 p.1 || isNaN64 p.2.1 || isNaN64 p.2.2 then "-" else
+  match ((verts.zip colors).filter fun (q, _) => key3 q = key3 p).getLast? with
+  | some (_, c) => showRGB c
+  | none => "-"
+
+def handleAll (ws : List String) : Option String :=
+  match ws with
+  | "stl" :: rest => do
+    let (b, t) ← run pFile rest
+    some (match stlDecodeMesh widen t.pf32 b with | .ok rs => showRecs64 rs | .error _ => "error")
+  | "stlr" :: rest => do
+    let (b, t) ← run pFile rest
+    some (match stlDecode t.pf32 b with | .ok rs => showRecs32 rs | .error _ => "error")
+  | "off" :: rest => do
+    let (b, t) ← run pFile rest
+    some (match offDecode t.pf64 b with | some ps => showPolys ps | none => "error")
+  | "offm" :: rest => do
+    let (b, t) ← run pFile rest
+    some (match offDecodeMesh t.pf64 b with
+      | some ps => if ps.all (fun p => p.length = 3) then showPolys ps else "polygons"
+      | none => "error")
+  | "plyh" :: rest => do
+    let (b, _) ← run pFile rest
+    some (match decodeHeader b with | some h => showHeader h | none => "error")
+  | "plyg" :: rest => do
+    let (b, t) ← run pFile rest
+    some (match plyReadAll t.floatText b with
+      | .error _ => "openerr"
+      | .ok (h, r) => showHeader h ++ " | " ++ showReadAll r)
+  | "plyc" :: rest => do
+    let (b, t) ← run pFile rest
+    some (match readColorPLY t.floatText b with
+      | .error _ => "error"
+      | .ok r =>
+        let vs := r.verts.map widen3
+        "ok " ++ toString r.tris.length ++ String.join (r.tris.map fun tr =>
+          String.join (tr.map fun v => " " ++ showC3 (widen3 v) ++ " " ++ lookupColor vs r.colors (widen3 v))))
+  | "csv" :: rest => do
+    let (b, t) ← run pFile rest
+    some (match csvDecode t.pf64 b with
+      | .ok rows => showRecs64 rows
+      | .error => "error"
+      | .unsupported => "unsupported")
+  | _ => none
 
 end M3d.Drv.C16
